@@ -13,22 +13,37 @@ def resolve_table(prog, origin, fields=None):
     """the layout table the reference calls `origin`; when the (private) name is gone, the one table of that class / module
     that has every field the reference names -- a table is what it contains, not what it is called"""
     modname, rest = origin.split(":")
-    mod = prog.module(modname)
+    mod = prog.modules.get(modname)
     parts = rest.split(".")
+    t = line = None
+    space, lines = {}, {}
     if len(parts) == 2:
-        cls = mod.env.get(parts[0])
+        cls = mod.env.get(parts[0]) if mod is not None else None
         if not isinstance(cls, ClassVal):
-            raise AnalysisError("anchor-missing", origin)
-        space, name, lines = cls.attrs, parts[1], prog.class_attr_lines(cls)
-    else:
+            # the class lives in another module now
+            same = [c for c in prog.classes() if c.name == parts[0]]
+            cls = same[0] if len(same) == 1 else None
+        if isinstance(cls, ClassVal):
+            name = parts[1]
+            t, owner = cls.lookup(name)          # the class's own attribute, or one it gets from a base class
+            owner = owner if isinstance(owner, ClassVal) and owner.module is not None else cls
+            mod = owner.module
+            space, lines = owner.attrs, prog.class_attr_lines(owner) if owner.node is not None else {}
+            line = lines.get(name)
+            if not isinstance(t, dict):
+                space = {}
+                for c in reversed(cls.mro()):
+                    if isinstance(c, ClassVal) and not c.builtin:
+                        space.update(c.attrs)
+    elif mod is not None:
         space, name, lines = mod.env, parts[0], prog.module_attr_lines(mod)
-    t = space.get(name)
-    line = lines.get(name)
+        t = space.get(name)
+        line = lines.get(name)
     if not isinstance(t, dict) and fields:
         cands = [k for k, v in space.items() if isinstance(v, dict) and v and set(fields) <= set(v)]
         if len(cands) == 1:
             t, line = space[cands[0]], lines.get(cands[0])
-    if not isinstance(t, dict):
+    if not isinstance(t, dict) or mod is None:
         raise AnalysisError("anchor-missing", origin)
     return t, prog.rel(mod), line
 
